@@ -20,6 +20,12 @@
 // the tunnel manager's "registered tunnel" log line) and while it relays. Occupancy at the start is limit-slack
 // (slack 1..3), so requests also race with more than one slot free.
 //
+// After every refusal: (a) the complete diff of what the refused request did to the store - every key it wrote
+// (attributed by goroutine through the store double's Fault hook), not only the counted ones - resp. the registries,
+// streams and the id manager's storage; (b) once everything has ended, room is made (an occupant closes, a counted code
+// or mapping is revoked) and the same request is issued again - for a refused activation also by another client -
+// and must not be turned away for any reason but the limit (model tail MakeRoom / Retry / RetryOther).
+//
 // plus a seeded free-running variant (all n released at once, jitter at the same gates). The recorded
 // Admit/Refuse/Release/Obs events are judged by spec/LimitsTrace.tla.
 package main
@@ -179,7 +185,37 @@ type rig interface {
 	occ() int              // occupancy read from the real object now (-1: not observable)
 	snap(p int) []string   // semantic state, without what the other racing requests own
 	probe() (want, got int, ok bool)
+	// retry: everything has ended; make room (close an occupant / revoke a counted code or mapping) and issue the
+	// refused request p again - mode "same": the same client, mode "other" (mapquota): another client whose own quota
+	// is empty. tried = false: this kind has no such retry (or no room can be made).
+	retry(p int, mode string) (ok bool, why string, tried bool)
 	close()
+}
+
+// goid: id of the calling goroutine (test-only trick, as in harness/sched)
+func goid() int64 {
+	var buf [64]byte
+	n := runtime.Stack(buf[:], false)
+	f := strings.Fields(string(buf[:n]))
+	if len(f) < 2 {
+		return -1
+	}
+	var id int64
+	fmt.Sscan(f[1], &id)
+	return id
+}
+
+func whyOf(err error) string {
+	if err == nil {
+		return ""
+	}
+	if coreerrors.IsCode(err, coreerrors.CodeQuotaExceeded) || coreerrors.IsCode(err, coreerrors.CodeResourceExhausted) || strings.Contains(err.Error(), "limit reached") {
+		return "limit"
+	}
+	if c := string(coreerrors.GetCode(err)); c != "" {
+		return c
+	}
+	return "error"
 }
 
 const (
@@ -257,14 +293,16 @@ type connRig struct {
 	s      *sched.Sched
 	sm     *session.SessionManager
 	cancel context.CancelFunc
+	ids    *doubles.Store // storage of the id manager
 }
 
 func newConnRig(b *behaviour, s *sched.Sched) *connRig {
 	ctx, cancel := context.WithCancel(context.Background())
-	idm := idgen.NewIDManager(doubles.NewStore("ids", nil), ctx)
+	ids := doubles.NewStore("ids", nil)
+	idm := idgen.NewIDManager(ids, ctx)
 	sm := session.NewSessionManagerWithConfig(idm, ctx, &session.SessionConfig{
 		HeartbeatTimeout: time.Hour, CleanupInterval: time.Hour, MaxConnections: b.Cfg.Lim})
-	return &connRig{s: s, sm: sm, cancel: cancel}
+	return &connRig{s: s, sm: sm, cancel: cancel, ids: ids}
 }
 func (r *connRig) preload(k int) error {
 	for i := 1; i <= k; i++ {
@@ -309,10 +347,31 @@ func (r *connRig) snap(p int) []string {
 			out = append(out, "stream:"+id)
 		}
 	}
+	// everything else a refused CreateConnection could leave behind: the two registries, the id manager's storage
+	st := r.sm.GetConnectionStats()
+	out = append(out, fmt.Sprintf("registries:control=%d:tunnel=%d", st.ControlConnections, st.TunnelConnections))
+	for k := range r.ids.Snapshot("") {
+		out = append(out, "idstore:"+k)
+	}
 	sort.Strings(out)
 	return out
 }
 func (r *connRig) probe() (int, int, bool) { return 0, 0, false }
+func (r *connRig) retry(p int, mode string) (bool, string, bool) {
+	if r.sm.GetConnectionStats().MaxConnections <= 0 {
+		return false, "", false
+	}
+	lim := r.sm.GetConnectionStats().MaxConnections
+	for _, c := range r.sm.ListConnections() { // room: live connections close until one slot is free
+		if len(r.sm.ListConnections()) < lim {
+			break
+		}
+		r.sm.CloseConnection(c.ID)
+	}
+	c := newIDConn(pname(p), nil)
+	_, err := r.sm.CreateConnection(c, c)
+	return err == nil, whyOf(err), true
+}
 func (r *connRig) close() {
 	r.cancel()
 	r.sm.Close()
@@ -329,10 +388,11 @@ type regRig struct {
 	streams map[string]*fakeStream
 	base    time.Time
 	seq     int
+	lim     int
 }
 
 func newRegRig(b *behaviour, s *sched.Sched, tr *tracer) *regRig {
-	r := &regRig{tr: tr, s: s, streams: map[string]*fakeStream{}, base: time.Now().Add(-time.Hour)}
+	r := &regRig{tr: tr, s: s, streams: map[string]*fakeStream{}, base: time.Now().Add(-time.Hour), lim: b.Cfg.Lim}
 	if b.Cfg.K == "ctrlcap" {
 		r.ctrl = session.NewClientRegistry(&session.ClientRegistryConfig{MaxConnections: b.Cfg.Lim})
 	} else {
@@ -365,6 +425,7 @@ func (r *regRig) register(id string) error {
 		return r.ctrl.Register(c)
 	}
 	c := session.NewTunnelConnection(id, fs, nil, "tcp")
+	c.TunnelID = "t-" + id // the by-tunnel-id index is part of the registry's state
 	return r.tun.Register(c)
 }
 func (r *regRig) preload(k int) error {
@@ -420,6 +481,13 @@ func (r *regRig) snap(p int) []string {
 				out = append(out, "tunnel:"+c.ConnID)
 			}
 		}
+		r.mu.Lock()
+		for id := range r.streams {
+			if keep(id, p) && r.tun.GetByTunnelID("t-"+id) != nil {
+				out = append(out, "bytunnel:"+id)
+			}
+		}
+		r.mu.Unlock()
 	}
 	r.mu.Lock()
 	for id, fs := range r.streams {
@@ -432,7 +500,20 @@ func (r *regRig) snap(p int) []string {
 	return out
 }
 func (r *regRig) probe() (int, int, bool) { return 0, 0, false }
-func (r *regRig) close()                  {}
+func (r *regRig) retry(p int, mode string) (bool, string, bool) {
+	if r.tun == nil || r.lim <= 0 { // the control registry evicts instead of refusing
+		return false, "", false
+	}
+	for _, c := range r.tun.List() {
+		if r.tun.Count() < r.lim {
+			break
+		}
+		r.tun.Remove(c.ConnID)
+	}
+	err := r.register(pname(p))
+	return err == nil, whyOf(err), true
+}
+func (r *regRig) close() {}
 
 // evictedGone: an evicted control connection must really be gone (lookup) and closed. Returns a
 // description of what is wrong, or "".
@@ -827,6 +908,9 @@ func (r *mapRig) probe() (int, int, bool) {
 	}
 	return want, got, true
 }
+
+// retry: the probe above is this kind's retry (after every connection ended, exactly the free slots are admitted again)
+func (r *mapRig) retry(p int, mode string) (bool, string, bool) { return false, "", false }
 func (r *mapRig) close() {
 	r.endAll()
 	for _, c := range r.holders {
@@ -845,6 +929,116 @@ type quotaRig struct {
 	ccRepo *repos.ConnectionCodeRepository
 	cancel context.CancelFunc
 	codes  map[int]string
+	wmu    sync.Mutex
+	writes []wrec // every mutating storage operation, with the goroutine that issued it
+}
+
+// wrec: one mutating storage operation (recorded through the store double's Fault hook, which runs in the caller's
+// goroutine right before the operation executes)
+type wrec struct {
+	g   int64
+	op  string
+	key string
+	arg string // JSON of the argument
+}
+
+const clientL2 = int64(22222222) // another listen client, with no mappings of its own
+
+func js(v any) string {
+	b, err := json.Marshal(v)
+	if err != nil {
+		return fmt.Sprint(v)
+	}
+	return string(b)
+}
+
+// keyClass: a storage key without its last segment (the id) - the key class named in verdict details
+func keyClass(k string) string {
+	if i := strings.LastIndex(k, ":"); i > 0 {
+		return k[:i]
+	}
+	return k
+}
+
+func (r *quotaRig) mark() int {
+	r.wmu.Lock()
+	defer r.wmu.Unlock()
+	return len(r.writes)
+}
+
+// leftovers: the complete diff of the store for one request. The request ran in goroutine g between the full
+// snapshots before and after; since `from` it issued the mutating operations mine, other goroutines (racing requests,
+// list requests) issued others. Every key the request wrote to is compared - not only the counted ones:
+//   - a plain key nobody else wrote in that window: value before vs value after (a key that came or went counts);
+//   - a list: the items this request appended that are still there / removed that are still gone (other requests
+//     append to the same indexes). Removing an index entry that has no record is not a change (DESIGN.md appendix B).
+// Returns the key classes of what was left behind.
+func (r *quotaRig) leftovers(g int64, from int, before, after map[string]any) []string {
+	r.wmu.Lock()
+	ws := append([]wrec(nil), r.writes[from:]...)
+	r.wmu.Unlock()
+	mineKeys := map[string][]wrec{}
+	others := map[string]bool{}
+	for _, w := range ws {
+		if w.g == g {
+			mineKeys[w.key] = append(mineKeys[w.key], w)
+		} else {
+			others[w.key] = true
+		}
+	}
+	isList := func(v any) ([]any, bool) { l, ok := v.([]any); return l, ok }
+	has := func(l []any, item string) bool {
+		for _, x := range l {
+			if js(x) == item {
+				return true
+			}
+		}
+		return false
+	}
+	left := map[string]bool{}
+	for k, ops := range mineKeys {
+		bv, bok := before[k]
+		av, aok := after[k]
+		bl, bIsL := isList(bv)
+		al, aIsL := isList(av)
+		if bIsL || aIsL || ops[0].op == "AppendToList" || ops[0].op == "RemoveFromList" {
+			for _, w := range ops {
+				switch w.op {
+				case "AppendToList":
+					if has(al, w.arg) && !has(bl, w.arg) {
+						left[keyClass(k)+"[+]"] = true
+					}
+				case "RemoveFromList":
+					if has(bl, w.arg) && !has(al, w.arg) {
+						var id string
+						if json.Unmarshal([]byte(w.arg), &id) == nil && (k == idxCodes) {
+							if _, rec := before[pfxCodeID+id]; !rec {
+								continue // pruned a dangling index entry
+							}
+						}
+						left[keyClass(k)+"[-]"] = true
+					}
+				default:
+					if !others[k] && js(bv) != js(av) {
+						left[keyClass(k)] = true
+					}
+				}
+			}
+			continue
+		}
+		if others[k] {
+			continue
+		}
+		if bok != aok || js(bv) != js(av) {
+			left[keyClass(k)] = true
+		}
+	}
+	var out []string
+	for k := range left {
+		out = append(out, k)
+	}
+	sort.Strings(out)
+	return out
 }
 
 var (
@@ -859,6 +1053,15 @@ func newQuotaRig(b *behaviour, s *sched.Sched) *quotaRig {
 	ctx, cancel := context.WithCancel(context.Background())
 	r := &quotaRig{b: b, cancel: cancel, codes: map[int]string{}}
 	r.st = doubles.NewStore("sd", s)
+	r.st.Fault = func(c *doubles.Call) error { // observer only: who writes what
+		if c.Write {
+			w := wrec{g: goid(), op: c.Op, key: c.Key, arg: js(c.Arg)}
+			r.wmu.Lock()
+			r.writes = append(r.writes, w)
+			r.wmu.Unlock()
+		}
+		return nil
+	}
 	if b.Cfg.K == "codequota" {
 		r.st.GateOn = func(op, key string) bool {
 			return (op == "GetList" && key == idxCodes) || (op == "Set" && strings.HasPrefix(key, pfxCode)) || (op == "AppendToList" && key == idxCodes) ||
@@ -963,7 +1166,8 @@ func (r *quotaRig) preload(k int) error {
 	}
 	return nil
 }
-func (r *quotaRig) request(p int) outcome {
+// call: the request of racer p (mapquota: issued by listen client `as`)
+func (r *quotaRig) call(p int, as int64) error {
 	var err error
 	if r.b.Cfg.K == "codequota" {
 		// the quota is the target client's: the same client in every racing request, everything else differs
@@ -971,9 +1175,55 @@ func (r *quotaRig) request(p int) outcome {
 			TargetAddress: fmt.Sprintf("tcp://10.0.%d.5:%d", p, 8080+p), ActivationTTL: time.Duration(p) * time.Hour,
 			MappingDuration: time.Duration(24*p) * time.Hour, Description: pname(p), CreatedBy: "user-" + pname(p)})
 	} else {
-		_, err = r.node(p).ActivateConnectionCode(&services.ActivateConnectionCodeRequest{Code: r.codes[p], ListenClientID: clientL,
+		_, err = r.node(p).ActivateConnectionCode(&services.ActivateConnectionCodeRequest{Code: r.codes[p], ListenClientID: as,
 			ListenAddress: fmt.Sprintf("0.0.0.0:%d", portOf(pname(p)))})
 	}
+	return err
+}
+
+// retry: room is made by revoking counted codes / mappings of the quota's owner until one slot is free; then the
+// same request again. mapquota, mode "other": the same code activated by another client (no room needed).
+func (r *quotaRig) retry(p int, mode string) (bool, string, bool) {
+	lim := r.b.Cfg.Lim
+	if lim <= 0 {
+		return false, "", false // limit 0 refuses everything: no room can be made
+	}
+	if r.b.Cfg.K == "mapquota" && mode == "other" {
+		err := r.call(p, clientL2+int64(p)) // a different other client per request: each has an empty quota
+		return err == nil, whyOf(err), true
+	}
+	if r.b.Cfg.K == "codequota" {
+		for _, c := range r.codesNow() {
+			if r.occ() < lim {
+				break
+			}
+			if c.TargetClientID == clientT && c.IsValidForActivation() {
+				if err := r.svc[0].RevokeConnectionCode(c.Code, "verif"); err != nil {
+					return false, "", false
+				}
+			}
+		}
+	} else {
+		for _, m := range r.mapsNow() {
+			if r.occ() < lim {
+				break
+			}
+			if m.ListenClientID == clientL && m.Status == models.MappingStatusActive && !m.IsRevoked && !m.IsExpired() {
+				if err := r.svc[0].RevokeMapping(m.ID, clientL, "verif"); err != nil {
+					return false, "", false
+				}
+			}
+		}
+	}
+	if r.occ() >= lim {
+		return false, "", false
+	}
+	err := r.call(p, clientL)
+	return err == nil, whyOf(err), true
+}
+
+func (r *quotaRig) request(p int) outcome {
+	err := r.call(p, clientL)
 	switch {
 	case err == nil:
 		return outcome{Admitted: true}
@@ -1120,9 +1370,19 @@ func preOf(b *behaviour) int {
 // run is the body of one racing request: the real call, bracketed by the semantic snapshots.
 // Kinds that log Admit from inside the admitted region (maplimit) do not log it again here.
 func run(r rig, tr *tracer, b *behaviour, p int) outcome {
+	qr, _ := r.(*quotaRig)
+	var full0 map[string]any
+	from := 0
+	if qr != nil {
+		from, full0 = qr.mark(), qr.st.Snapshot("")
+	}
 	before := r.snap(p)
 	out := r.request(p)
 	after := r.snap(p)
+	var left []string
+	if qr != nil && out.Refused {
+		left = qr.leftovers(goid(), from, full0, qr.st.Snapshot(""))
+	}
 	switch {
 	case out.Admitted:
 		if b.Cfg.K != "maplimit" && b.Cfg.K != "ctrlcap" {
@@ -1132,7 +1392,7 @@ func run(r rig, tr *tracer, b *behaviour, p int) outcome {
 		if out.Err == "touched" {
 			after = append(after, "conn-used:"+pname(p))
 		}
-		tr.add(fw.Event{"ev": "Refuse", "p": pname(p), "before": strs(before), "after": strs(after)})
+		tr.add(fw.Event{"ev": "Refuse", "p": pname(p), "before": strs(before), "after": strs(after), "left": strs(left)})
 	}
 	return out
 }
@@ -1285,6 +1545,49 @@ func drive(env *fw.Env, fb fw.Behaviour) *fw.Trace {
 	return t
 }
 
+// epilogue: everything has ended. For every request that was refused because of the limit: make room and issue the
+// same request again (rig.retry). A refused request changed no state, so nothing but the limit can stand in its way.
+// prefer: retry mode the behaviour itself names for a request (model steps Retry / RetryOther).
+func epilogue(r rig, tr *tracer, b *behaviour, prefer map[int]string) {
+	var refused []int
+	for _, e := range tr.snapshot() {
+		if e["ev"] == "Refuse" {
+			if p, ok := racerOf(e["p"].(string)); ok {
+				refused = append(refused, p)
+			}
+		}
+	}
+	sort.Ints(refused)
+	for i, p := range refused {
+		mode := "same"
+		if b.Cfg.K == "mapquota" && (i+len(b.Steps)+b.Seed)%2 == 1 {
+			mode = "other"
+		}
+		if m := prefer[p]; m != "" {
+			mode = m
+		}
+		type res struct {
+			ok, tried bool
+			why       string
+		}
+		done := make(chan res, 1)
+		go func() {
+			ok, why, tried := r.retry(p, mode)
+			done <- res{ok, tried, why}
+		}()
+		select {
+		case x := <-done:
+			if x.tried {
+				tr.add(fw.Event{"ev": "Retry", "p": pname(p), "mode": mode, "ok": x.ok, "why": x.why})
+			}
+		case <-time.After(10 * time.Second):
+			// nothing else runs any more: the retried request waits for something a request that ended still holds
+			tr.add(fw.Event{"ev": "Retry", "p": pname(p), "mode": mode, "ok": false, "why": "blocked"})
+			return
+		}
+	}
+}
+
 func driveSched(env *fw.Env, b *behaviour) *fw.Trace {
 	s := sched.New(false)
 	s.Watchdog = 400 * time.Millisecond
@@ -1358,8 +1661,22 @@ func driveSched(env *fw.Env, b *behaviour) *fw.Trace {
 	released := map[int]bool{}
 	merged := map[int]bool{}
 	listerDone := false
+	prefer := map[int]string{}
 	for i, st := range b.Steps {
 		p, name := st.P, pname(st.P)
+		if st.A == "MakeRoom" || st.A == "Retry" || st.A == "RetryOther" {
+			// the model's tail: everything has ended, room is made, a refused request is issued again. Nothing runs
+			// next to it, so there is no interleaving to force: the epilogue below does it for every refused request
+			for _, t := range b.Steps[i:] {
+				switch t.A {
+				case "Retry":
+					prefer[t.P] = "same"
+				case "RetryOther":
+					prefer[t.P] = "other"
+				}
+			}
+			break
+		}
 		switch {
 		case st.A == "LCall": // the list request (not a racing admission): takes no quota mutex
 			qr := r.(*quotaRig)
@@ -1578,6 +1895,7 @@ func driveSched(env *fw.Env, b *behaviour) *fw.Trace {
 	if want, got, ok := r.probe(); ok {
 		tr.add(fw.Event{"ev": "Probe", "want": want, "got": got})
 	}
+	epilogue(r, tr, b, prefer)
 	return &fw.Trace{Status: fw.Realised, Events: tr.ev}
 }
 
@@ -1670,14 +1988,15 @@ func driveFree(env *fw.Env, b *behaviour) *fw.Trace {
 			time.Sleep(10 * time.Microsecond)
 		}
 	}()
-	defer func() {
+	stopSideNow := func() {
 		select {
 		case <-stopSide:
 		default:
 			close(stopSide)
 		}
 		<-sideDone
-	}()
+	}
+	defer stopSideNow()
 	var wg sync.WaitGroup
 	var bad atomic.Pointer[string]
 	gate := make(chan struct{})
@@ -1739,6 +2058,8 @@ func driveFree(env *fw.Env, b *behaviour) *fw.Trace {
 	if want, got, ok := r.probe(); ok {
 		tr.add(fw.Event{"ev": "Probe", "want": want, "got": got})
 	}
+	stopSideNow()
+	epilogue(r, tr, b, nil)
 	return &fw.Trace{Status: fw.Realised, Events: tr.ev}
 }
 
@@ -1746,14 +2067,17 @@ func driveFree(env *fw.Env, b *behaviour) *fw.Trace {
 
 const (
 	allKinds = `{"conncap", "ctrlcap", "tuncap", "maplimit", "codequota", "mapquota"}`
-	allVars  = `{"none", "asis", "wrongkey", "ctrlsplit", "lockdrop", "indexfirst", "doublerelease", "lastslot"}`
+	allVars  = `{"none", "asis", "wrongkey", "ctrlsplit", "lockdrop", "indexfirst", "doublerelease", "lastslot", "claimbeforequota"}`
 )
 
 func job(name string, c map[string]string) fw.TLCJob {
 	d := map[string]string{"KINDS": allKinds, "NS": "{2, 3, 4}", "LIMS": "{0, 1, 2, 3}", "NODES": "{1}", "VARIANTS": `{"none"}`, "SHAPE": "free",
-		"RR": "2", "SLACKS": "{1, 2, 3}", "LISTERS": "1", "REL": "TRUE", "EMIT": "FALSE", "EMITMAXN": "4", "EMITALL": "FALSE", "VIEW": "VIEW view", "INVS": ""}
+		"RR": "2", "SLACKS": "{1, 2, 3}", "LISTERS": "1", "RETRIES": "1", "REL": "TRUE", "EMIT": "FALSE", "EMITMAXN": "4", "EMITALL": "FALSE", "VIEW": "VIEW view", "INVS": ""}
 	for k, v := range c {
 		d[k] = v
+	}
+	if d["EMITALL"] == "TRUE" {
+		d["RETRIES"] = "0" // maximal behaviours end when every request has ended; the retry tail is driven for every refusal anyway
 	}
 	return fw.TLCJob{Name: name, Module: "Limits", Cfg: "Limits.cfg", Workers: 8, Consts: d}
 }
@@ -1830,13 +2154,13 @@ func main() {
 				// deviation. Generated: one behaviour per transition - var = none: class "gen"; the others: class "legacy",
 				// schedules that must be unrealisable on the right tree.
 				job("legacy+gen+mc", map[string]string{"NS": ns, "VARIANTS": allVars, "NODES": "{1, 2}", "EMIT": "TRUE", "EMITMAXN": maxN,
-					"INVS": "Strict Safe RefusedNoEffect CounterExact"}),
+					"INVS": "Strict Safe RefusedNoEffect RetryOK RetryAdmitted CounterExact"}),
 				// every maximal behaviour of 2 requests at limit-1, of 3 requests at limit-2 and (the two caps with separate
 				// check and insert) of 4 requests at limit-3 (var = none; asis: limit-1 only), of 3 and 4 registrations for ctrlsplit
 				job("legacy-all+all", map[string]string{"VARIANTS": `{"none", "asis", "ctrlsplit"}`, "NODES": "{1, 2}", "SHAPE": "pairs", "RR": "1", "LISTERS": "0", "EMITALL": "TRUE", "VIEW": "", "INVS": "EmitMaximal"}),
 			}
 			if env.Tier == "quick" {
-				jobs = append(jobs, job("mc:n4", map[string]string{"NS": "{4}", "NODES": "{1, 2}", "INVS": "Strict Safe RefusedNoEffect CounterExact"}))
+				jobs = append(jobs, job("mc:n4", map[string]string{"NS": "{4}", "NODES": "{1, 2}", "INVS": "Strict Safe RefusedNoEffect RetryOK RetryAdmitted CounterExact"}))
 			}
 			if env.Tier == "thorough" {
 				jobs = append(jobs,
@@ -1906,6 +2230,8 @@ func main() {
 					pm = 30
 				case trans && v == "wrongkey":
 					pm = 100
+				case trans && v == "claimbeforequota": // same steps and gates as the code as it is; they differ in what is left behind
+					pm = 60
 				case trans && v == "ctrlsplit":
 					pm = 500
 				case !trans && b.Cfg.K == "maplimit" && b.Cfg.N == 2 && v == "none":
@@ -1997,6 +2323,36 @@ func main() {
 				fmt.Printf("[c17]   %-24s driven=%d realised=%d model-overshoot=%d real-overshoot=%d model=real:%d\n", k, st.n, st.realised, st.modelOver, st.realOver, st.agree)
 			}
 			fmt.Printf("[c17]   hook point %s reached %d times\n", hookPoint, hookSeen.Load())
+			// what followed the refusals: complete store diffs (quotas) and retries after room was made
+			rt := map[string]int{}
+			for _, t := range traces {
+				kind := ""
+				for _, e := range t.Events {
+					switch e["ev"] {
+					case "Cfg":
+						kind, _ = e["kind"].(string)
+					case "Refuse":
+						rt[kind+" refused"]++
+						if l, _ := e["left"].([]any); len(l) > 0 {
+							rt[kind+" refused:left-behind"]++
+						}
+					case "Retry":
+						res := "ok"
+						if e["ok"] != true {
+							res = fmt.Sprint("turned-away:", e["why"])
+						}
+						rt[fmt.Sprintf("%s retry-%v %s", kind, e["mode"], res)]++
+					}
+				}
+			}
+			var rk []string
+			for k := range rt {
+				rk = append(rk, k)
+			}
+			sort.Strings(rk)
+			for _, k := range rk {
+				fmt.Printf("[c17]   after refusal: %-44s %d\n", k, rt[k])
+			}
 			// the sources mix the code as it is ("gen") with schedules that must be unrealisable: the framework's
 			// realisability floor is applied here, to the class it is meant for
 			genAll, genReal := 0, 0
@@ -2031,7 +2387,7 @@ func main() {
 			// many, (c) a refused request that left something behind, (d) a refused request that kept a slot
 			var out []*fw.Trace
 			id := 1 << 20
-			var na, nb, nc, nd int
+			var na, nb, nc, nd, ne, nf int
 			for _, t := range acc {
 				if len(t.Events) == 0 {
 					continue
@@ -2081,6 +2437,31 @@ func main() {
 						}
 					}
 				}
+				if ne < 10 { // (e) a refused request left a key behind that is not part of the counted state
+					for i, e := range t.Events {
+						if e["ev"] == "Refuse" {
+							id++
+							c := cloneTrace(t, id)
+							c.Events[i]["left"] = []any{"tunnox:runtime:conncode:claimed"}
+							out = append(out, c)
+							ne++
+							break
+						}
+					}
+				}
+				if nf < 10 { // (f) the refused request, issued again after room was made, is turned away for another reason
+					for i, e := range t.Events {
+						if e["ev"] == "Retry" && e["ok"] == true {
+							id++
+							c := cloneTrace(t, id)
+							c.Events[i]["ok"] = false
+							c.Events[i]["why"] = "CONFLICT"
+							out = append(out, c)
+							nf++
+							break
+						}
+					}
+				}
 				if nd < 10 {
 					refused := false
 					for i, e := range t.Events {
@@ -2105,7 +2486,8 @@ func main() {
 		Rule: "one behaviour per transition of Limits.tla (every kind, n in {2,3,4} racing requests at occupancy limit-1 and limit-2, limit in {0,1,2}; " +
 			"list requests, peer closes and removals of absent ids next to them; the code as it is, the code before the repairs and seven faulty variants) " +
 			"plus every maximal interleaving of 2 requests at limit-1, 3 at limit-2 and (caps with separate check and insert, sampled) 4 at limit-3, " +
-			"forced on the real objects; plus seeded free-running races; non-trivial = realised with at least two requests",
+			"forced on the real objects; plus seeded free-running races; every refused request is followed by a complete diff of what it wrote and, " +
+			"after room was made, by the same request again; non-trivial = realised with at least two requests",
 		Assumptions: []string{"one request per racing process; occupants present at the start stay (except evicted control connections)",
 			"quota kinds: the store double is a correct linearizable map; gated operations are the per-client index read, the record write, the index append and the index removal",
 			"maplimit: occupancy = handlers inside adapter.PrepareConnection (the handler holds its slot only until handleConnection returns)"},
